@@ -17,8 +17,9 @@ package dns
 //@   exit time: ret0 == nil ==> incept <= now && now <= expire
 //@   exit signer: ret0 == nil ==> callres("equal")
 //@   exit spans: ret0 == nil ==> 12 <= bodyend && bodyend + 11 <= sigstart && sigstart + 18 <= sigend && sigend <= len(buf)
+//@   assert at "bodyend := offset" skipped: uint16(anc + auc + adc) == 0 || i == uint16(anc + auc + adc)
 //@   loop 1 invariant 12 <= offset && buflen == len(buf)
-//@   loop 2 invariant 12 <= offset && buflen == len(buf)
+//@   loop 2 invariant 12 <= offset && buflen == len(buf) && 1 <= i && (i <= uint16(anc + auc + adc) || uint16(anc + auc + adc) == 0)
 
 // The length functions are functions of the message (no map iteration, clock or randomness), so the
 // uncompressed length Sign computes is the one PackBuffer computes again.
